@@ -1386,7 +1386,7 @@ func Run(t *tr.W, thorough bool) {
 	}
 	ncases *= tr.EnvInt("VERIF_BUDGET", 1)
 	if os.Getenv("VERIF_SEARCH") == "1" {
-		ncases = 800 // the search after a broken tie: wider than quick, but bounded (about a minute)
+		ncases = 3 * 120 // the search after a broken tie: three times the quick run
 	}
 	for i := 0; i < ncases; i++ {
 		runCase(t, rng, 18+rng.Intn(30), "")
